@@ -3,8 +3,10 @@ import Hive.Model.Daemon
 /-!
 # Line protocol of the C20 driver
 
-* `ev …` lines carry the event log recorded from the real daemon; `check` answers with the verdict of the
-  trace predicates of `Hive/Spec/Daemon.lean` on that log (`accept` / `reject <clauses>`).
+* `ev …` lines carry the event log recorded from the real daemon; `verdict` answers with the verdict of the
+  trace predicates of `Hive/Spec/Daemon.lean` on that log (`accept` / `reject <clauses>`; compared with the
+  verdict of the harness's independent Go oracle), `check` with the verdict over the clauses that are theorems
+  (compared with the constant `accept`, so that a rejected log is recorded with its script).
 * In a sequential case (`mode seq`) every `do <op>` line is executed on the protocol model
   (`Hive.Daemon.step true`, the same function the theorems are about) by running the calling thread to its
   end and letting the worker goroutines that are due (cancelled, asked to finish, or exiting at once) run to
@@ -189,7 +191,8 @@ def stepLine (d : DSt) (toks : List String) : DSt × String :=
     match parseEv rest with
     | some e => ({ d with evs := e :: d.evs }, "ok")
     | none => (d, "bad-ev")
-  | ["check"] => (d, verdict d.evs.reverse)
+  | ["verdict"] => (d, verdict d.evs.reverse)
+  | ["check"] => (d, verdictProved d.evs.reverse)
   | _ => (d, "bad-op")
 
 end Hive.Daemon
